@@ -90,6 +90,11 @@ def r13_2(cx):
         if twin not in meths:
             continue
         n += 1
+        if name == 'is_match':
+            from rules.search import _is_match_shape
+            _b, why0 = _is_match_shape(cx)
+            cx.report('R13.2', b, twin, why0 is None, '= try_find(input.earliest(true)) + panicking unwrap + is_some' if why0 is None else why0)
+            continue
         t = expand_vars(b, b.def_term(0) or b.local_term(0))
         if name == 'is_match' and is_call(t, r'Option::is_some$'):
             t = expand_vars(b, peel(t[2][0]))
